@@ -12,9 +12,11 @@ import (
 // canonical answers and evaluates the implementation-side oracles.
 type propFunc func(r *Run, rng *Rng, replay string)
 
-var registry = map[string]propFunc{}
+var registry = map[string][]propFunc{}
 
-func register(name string, f propFunc) { registry[name] = f }
+// register adds a runner for a property; several files may contribute runners to one
+// property, they run in registration order into the same Run.
+func register(name string, f propFunc) { registry[name] = append(registry[name], f) }
 
 func main() {
 	if len(os.Args) >= 2 && os.Args[1] == "child" {
@@ -32,7 +34,7 @@ func main() {
 			*seed = v
 		}
 	}
-	f, ok := registry[*prop]
+	fs, ok := registry[*prop]
 	if !ok {
 		names := []string{}
 		for k := range registry {
@@ -47,7 +49,9 @@ func main() {
 		os.Exit(2)
 	}
 	r := NewRun(*prop, *tier, *seed, *out)
-	f(r, NewRng(*seed), *replay)
+	for i, f := range fs {
+		f(r, NewRng(*seed+uint64(i)*1000003), *replay)
+	}
 	r.Flush()
 }
 
